@@ -35,8 +35,12 @@ class XPathFunction(XPathToken):
     """
     __name__: str
     _qname: Optional[QName] = None
+    # The lookahead skips whitespace and comments (with one level of nesting) up to the
+    # opening parenthesis of the arguments. A comment cannot be matched with '.*' because
+    # that spans also the code between two comments, e.g. "(a cast as xs:integer (: c :))
+    # + (: d :) (b)" would tokenize 'integer' as a function call.
     pattern = r'(?<!\$)\b[^\d\W][\w.\-\xb7\u0300-\u036F\u203F\u2040]*' \
-              r'(?=\s*(?:\(\:.*\:\))?\s*\((?!\:))'
+              r'(?=\s*(?:\(\:(?:(?!\(\:|\:\))[\s\S]|\(\:(?:(?!\:\))[\s\S])*\:\))*\:\)\s*)*\((?!\:))'
 
     sequence_types: ta.SequenceTypesType = ()
     "Sequence types of arguments and of the return value of the function."
